@@ -22,7 +22,7 @@ CONFIG = dict(
           "the baseline; the same corpus is answered again by fresh processes with PYTHONHASHSEED 1, 2 "
           "and a seed-derived value - which also differ in locale, default / IO encoding, working directory, argv, HOME/TMPDIR "
           "and in what is already imported - and the digests are diffed by the parent; every case is also parsed from a "
-          "stream at an offset and as a later member of two stacks; and the vocabulary corpus is answered "
+          "stream at an offset, as a later member of two stacks and from raw streams that return 1-7 bytes per read; and the vocabulary corpus is answered "
           "forward and reversed in one process (order sensitivity).  A case is one distinct "
           "byte string; non-trivial = fickling decompiles it and it has >= 3 opcodes."),
     assumptions=[
@@ -94,6 +94,37 @@ def answer(f, analysis, tracing, p, q):
     if q == "unused_variables":
         return _safe(lambda: tuple(sorted(f.Interpreter(p).unused_variables())))
     raise ValueError(q)
+
+
+class Dribble(io.RawIOBase):
+    """Raw stream whose reads return at most `chunk` bytes (a short read is not end of input)."""
+
+    def __init__(self, data, chunk, seekable):
+        self._b = io.BytesIO(data)
+        self._chunk = chunk
+        self._seekable = seekable
+
+    def readable(self):
+        return True
+
+    def seekable(self):
+        return self._seekable
+
+    def readinto(self, buf):
+        n = min(len(buf), self._chunk)
+        got = self._b.read(n)
+        buf[:len(got)] = got
+        return len(got)
+
+    def seek(self, *a):
+        if not self._seekable:
+            raise io.UnsupportedOperation("seek")
+        return self._b.seek(*a)
+
+    def tell(self):
+        if not self._seekable:
+            raise io.UnsupportedOperation("tell")
+        return self._b.tell()
 
 
 def corpus(ctx):
@@ -222,6 +253,23 @@ def run_shard(ctx):
                         ("stack-member-p0", f.StackedPickle.load(b"(lp0\nI1\na." + data + b"N.")[1])]
         except Exception:
             variants = []
+        # the same bytes arriving through raw streams that hand out a few bytes per read (sockets, pipes, FIFOs)
+        # (not seekable ones: a *seekable* raw stream with short reads is outside the file protocol pickletools and
+        # the stock unpickler themselves rely on - read(n) returns n bytes unless the input ends)
+        for vname, chunk, seekable in (("raw-dribble-1", 1, False), ("raw-dribble-7", 7, False), ("raw-dribble-4096", 4096, False)):
+            try:
+                variants.append((vname, f.Pickled.load(Dribble(data, chunk, seekable))))
+                sp = f.StackedPickle.load(Dribble(b"N." + data + b"K\x01.", chunk, seekable))
+                if len(sp) != 3:
+                    raise ValueError(f"stack of 3 parsed into {len(sp)}")
+                variants.append((vname + "-stack-member", sp[1]))
+            except RecursionError:
+                pass
+            except Exception as e:
+                agg.violation(f"position-dependent:parse:{vname}",
+                              f"the bytes parse from a byte string but not from a raw stream that returns at most {chunk} "
+                              f"bytes per read: {type(e).__name__}: {str(e)[:100]}",
+                              {"label": label, "hex": data.hex(), "sequence": [vname, "parse"]})
         for vname, pv in variants:
             for q in ("check_safety", "unparse", "to_dict", "dumps"):
                 got = answer(f, analysis, tracing, pv, q)
